@@ -59,7 +59,7 @@ Theorem C18_resume_transition : forall gc ops k vals r s1, let s := reach gc ops
      stof s k = Some Suspended /\ stof s1 k = Some Running /\ current s1 = Some k /\
      (forall p, current s = Some p -> stof s p = Some Running /\ stof s1 p = Some Normal) /\
      (forall j, j <> k -> current s <> Some j -> stof s1 j = stof s j)) /\
-  (r <> COk -> current s1 = current s /\ forall j, stof s1 j = stof s j).
+  (r <> COk -> s1 = s).
 Proof. exact resume_transition_all. Qed.
 Print Assumptions C18_resume_transition.
 
@@ -202,22 +202,15 @@ Theorem C18_invalid_transitions : forall gc ops, let s := reach gc ops in
 Proof. exact invalid_transitions. Qed.
 Print Assumptions C18_invalid_transitions.
 
-(* FULL statement [error_unchanged_full]: after any history, any call of the library that returns an
-   error leaves the state unchanged.  Since the repair of coroutine.destroy (unregister only after a
-   successful minicoro.destroy) destroy is no exception any more, but the statement is STILL false:
-   a resume WITH arguments of a coroutine that is not suspended keeps the arguments pushed (witness),
-   and a coroutine.pop of several values is not rolled back; both orders are documented. *)
-Theorem C18_error_unchanged_refuted : ~ error_unchanged_full.
-Proof. exact error_unchanged_refuted. Qed.
-Print Assumptions C18_error_unchanged_refuted.
-
-(* ... the strongest true restriction: every error of every call (destroy in GC builds included) leaves
-   the whole state unchanged, except exactly (b) a resume WITH arguments of an existing non-suspended
-   coroutine and (c) a coroutine.pop of two or more values *)
-Theorem C18_error_unchanged_partial : forall gc ops o r s', let s := fst (run ops (init gc)) in
+(* every error of every call of the library (resume, yield, push, pop, peek, drop, destroy), after any history,
+   leaves the WHOLE state unchanged - with exactly one exclusion ([benign]): a coroutine.pop of two or more values
+   that fails midway keeps what it popped, which is documented ("the values may not be set"; the user is
+   responsible for the count) and whose effect is exactly C18_pop_effect.  Since the repairs 1075c3a (destroy)
+   and 6a782fc (refused resume takes its arguments back) nothing else is excluded. *)
+Theorem C18_error_unchanged : forall gc ops o r s', let s := fst (run ops (init gc)) in
   benign o s -> api o s = Some (CErr r, s') -> s' = s.
-Proof. exact error_unchanged_partial. Qed.
-Print Assumptions C18_error_unchanged_partial.
+Proof. exact error_unchanged_all. Qed.
+Print Assumptions C18_error_unchanged.
 
 (* GC registration (the repaired defect): every coroutine object that still exists is registered in
    the collector exactly when the program is a GC build *)
@@ -239,15 +232,16 @@ Theorem C18_destroy_behaviour : forall gc ops k, let s := reach gc ops in
 Proof. exact destroy_behaviour. Qed.
 Print Assumptions C18_destroy_behaviour.
 
-Theorem C18_resume_args_effect : forall gc ops k c vals s1, let s := reach gc ops in
-  get k (cos s) = Some c -> co_st c <> Suspended -> vals <> [] -> co_push k vals s = (COk, s1) ->
-  co_resume k vals s = (CErr MCO_NOT_SUSPENDED, s1).
-Proof. exact resume_args_effect. Qed.
-Print Assumptions C18_resume_args_effect.
+(* a refused resume WITH arguments (the repaired finding): documented error, whole state unchanged *)
+Theorem C18_refused_resume_unchanged : forall gc ops k c vals, let s := reach gc ops in
+  get k (cos s) = Some c -> co_st c <> Suspended -> (forall e, fst (co_push k vals s) <> CErr e) ->
+  co_resume k vals s = (CErr MCO_NOT_SUSPENDED, s).
+Proof. exact refused_resume_unchanged_all. Qed.
+Print Assumptions C18_refused_resume_unchanged.
 
 (* facts about the constants scraped from the source on this run *)
 Theorem C18_gen_facts :
-  DESTROY_UNREGISTERS_FIRST = false /\ MCO_ZERO_MEMORY = true /\ 0 < STORAGE_SIZE /\
+  DESTROY_UNREGISTERS_FIRST = false /\ RESUME_ROLLS_BACK_ARGS = true /\ MCO_ZERO_MEMORY = true /\ 0 < STORAGE_SIZE /\
   NoDup (map cstate_code all_cstate) /\ NoDup (map mres_code all_mres) /\ NoDup (map describe all_mres) /\
   status_of_state Suspended = "suspended"%string /\ status_of_state Running = "running"%string /\
   status_of_state Normal = "normal"%string /\ status_of_state Dead = "dead"%string /\
